@@ -23,14 +23,26 @@ RE_BLAME = re.compile(r"The problem arose whilst typechecking parameter '(\w+)'"
 
 
 def parse_message(msg):
+    """Tolerant of the exact wording: the stage is read from the first line that mentions
+    "return" or "param"/"argument"; the blamed parameter from a quoted name after the word
+    parameter/argument; bindings from `name=value` lines after the word "values"."""
     from ..adapter import parse_bindings
 
-    m = RE_STAGE2.search(msg)
-    stage = m.group(1) if m else None
-    fn = m.group(2).rstrip(".") if m else None
-    b = RE_BLAME.search(msg)
+    stage = None
+    head = ""
+    for line in msg.splitlines():
+        low = line.lower()
+        if "return" in low and ("check" in low or "error" in low):
+            stage, head = "return value", line
+            break
+        if ("param" in low or "argument" in low) and ("check" in low or "error" in low):
+            stage, head = "parameters", line
+            break
+    m = re.search(r"(?:of|in|for)\s+([\w.<>]+)", head)
+    fn = m.group(1).rstrip(".") if m else None
+    b = re.search(r"(?:parameter|argument)\s+['\"`](\w+)['\"`]", msg)
     blamed = b.group(1) if b else None
-    i = msg.find("The current values for each jaxtyping")
+    i = msg.lower().find("current values")
     axes, structs = ({}, {})
     if i >= 0:
         axes, structs = parse_bindings(msg[i:])
@@ -103,7 +115,7 @@ def _judge(msg, exc, *, stage_exp, fname, blame_ok, exp_axes, exp_structs, switc
     stage, fn, blamed, axes, structs = parse_message(msg)
     if stage != stage_exp:
         bad("stage", f"message says stage {stage!r}, expected {stage_exp!r}: {msg[:160]!r}")
-    if fn != fname:
+    if fn != fname and fname not in msg.split("----")[0]:
         bad("function-name", f"message names {fn!r}, expected {fname!r}")
     if stage_exp == "parameters":
         if blamed is None:
